@@ -55,6 +55,19 @@ class Graph:
         return g
 
 
+class SizedList(Native):
+    """a list of which only the (symbolic) length is known"""
+
+    def __init__(self, n):
+        self.n = n
+
+    def sym_len(self):
+        return self.n
+
+    def __len__(self):
+        return int(self.n)
+
+
 class NodesView(Native):
     """graph.nodes[name] and graph.nodes(data=True) -- a plain python object usable by the interpreter and natively"""
 
@@ -378,6 +391,49 @@ class FinalizeSubmit(Target):
         return []
 
 
+class CanConsume(Target):
+    """The task of a REPEATING consumer is launched inside its engine only if `consume` holds; Engine.canConsume gives
+    consume => every producer of the same stage already has output in its working directory (it has been launched) --
+    the statement's 'once that producer has been launched' for same-stage subjects (shared with C13)."""
+    prop = 'C01'
+    name = 'Engine.canConsume'
+    file = 'python/experiment/runtime/engine.py'
+    qualname = 'Engine.canConsume'
+    trusted = ["WorkingDirectory.output / outputBeforeDate list the files the producer has written"]
+    assumptions = ["<= 2 producers, number of output files symbolic; delay = 0 (the value of the only call site)"]
+
+    def setup(self, c):
+        n = c.choice('producers', 3)
+        prods, facts = [], []
+        for i in range(n):
+            same = c.one_of('p%d.same_stage' % i, [True, False])
+            nout = c.int('p%d.outputs' % i)
+            nold = c.int('p%d.outputs_older_than_delay' % i)
+            c.require(And(compare('>=', nold, 0), compare('>=', nout, nold)))
+            wd = Obj('wd', path='/inst/stages/stage1/p%d' % i, output=SizedList(nout),
+                     outputBeforeDate=Extern('outputBeforeDate', lambda c, d, nold=nold: SizedList(nold)))
+            prods.append(Obj('producer-job', stageIndex=1 if same else 0, workingDirectory=wd, identification='p%d' % i))
+            facts.append((same, nout, nold))
+        consumed_before = c.one_of('_consume@entry', [False, True])
+        delay = 0          # the only call site (EngineTaskController) uses the default delay
+        force = c.one_of('force', [False, True])
+        this = Obj('engine', log=NULLLOG, _consume=consumed_before,
+                   job=Obj('job', producerInstances=prods, stageIndex=1, identification='stage1.observer'))
+        return State(args=[this], kwargs={'delay': delay, 'force': force}, this=this, facts=facts, before=consumed_before,
+                     delay=delay, force=force)
+
+    def ensures(self, c, st, out):
+        if out.kind == 'raise':
+            return [('no-exception', False)]
+        res = out.value
+        have = And(*[compare('>', (nout if st.delay == 0 else nold), 0) for (same, nout, nold) in st.facts if same]) \
+            if any(same for (same, _, _) in st.facts) else True
+        shortcut = st.before and not st.force
+        return [('consumes-only-when-every-same-stage-producer-has-output', Implies(res, Or(shortcut, have))),
+                ('consumes-when-every-same-stage-producer-has-output', Implies(have, res)),
+                ('remembers-that-it-could-consume', Iff(st.this._consume, Or(st.before, res)))]
+
+
 class DoneSetFrames(Lemma):
     """writes-frame: comp_done and comp_staged_in are only ever extended (.add) outside __init__, and only by functions
     that are under contract here or listed as startup/shutdown paths; handleError ends by setting stop_executing."""
@@ -432,5 +488,5 @@ class ReadyIsStable(Lemma):
                 ('final-producers-stay-final', Implies(And(rely, fin0), fin1))]
 
 
-TARGETS = [Schedule(), FinishedCheck(), FinalizeSubmit()]
+TARGETS = [Schedule(), FinishedCheck(), FinalizeSubmit(), CanConsume()]
 LEMMAS = [DoneSetFrames(), ReadyIsStable()]
